@@ -52,7 +52,8 @@ def declare(spec):
         stable=['process.stopping', 'process.klog', 'process.naps', 'process.alive_seen', 'Process.pid',
                 'process.closed', 'excl', 'Process.wid', 'Process.started'],
         facts=['implies(not (process.pid in old(K_alive)), not (process.pid in K_alive))',
-               'wf_procs_pid(self)', 'implies(excl, %s)' % PROT, LOGS],
+               'wf_procs_pid(self)', 'implies(excl, %s)' % PROT, LOGS,
+               'implies(old(found_empty(self)), found_empty(self))'],
         note='suspension inside Watcher.kill_process(process): the instance that set process.stopping owns '
              'the per-process ghost fields until it clears the flag (every other kill_process(process) '
              'returns at the stopping test; frame-scan stopping-writers); a dead pid stays dead '
@@ -61,6 +62,7 @@ def declare(spec):
     spec.relies['held'] = Rely(
         'held',
         stable=['excl', 'Process.pid', 'Process.wid', 'Process.started'],
-        facts=['wf_procs_pid(self)', 'implies(excl, %s)' % PROT, LOGS],
+        facts=['wf_procs_pid(self)', 'implies(excl, %s)' % PROT, LOGS,
+               'implies(old(found_empty(self)), found_empty(self))'],
         note='suspension of an operation that may own the slot: protected fields stable under excl; kernel, '
              'logs, clocks and per-process termination state may change')
